@@ -58,5 +58,5 @@ var directed = []string{
 	"x := {\"w\" : true\n\n  and\n( true ), \"a\" : 1, \"b\" : 2}", "a\n\n:= 1", "x := 1 + # c\n (2 + 3)", "x := (a + b) /* c */ * 2", "f(a # c\n, b)",
 	"x := a * (b + c # cmt\n)", "(\n\na + b) * 2", "(/* c */ a + b) * 2", "name /* foo\n\t\tbar\n    x*/ 'b/* - */la' /*test*/",
 	"Foo := {\n  \"super\" : [ Bar ]\n\n  # Object ID\n  #\n  \"id\" : 0\n\n  \"idx\" : 0\n\n  # Constructor\n  #\n  \"init\" : 1\n}",
-	"mutex a {\n}\n\n\n/* c */\n\nb", "import \"a\" as b\n\n/* c */\n\nfor a in b {\n}", "sink a\n    priority -1\n    suppresses []\n{\n}", "sink s\n    kindmatch [\"a\"],\n    /* c */\n\n    priority 1\n{\n}", "sink s\n    /* c */\n\n    kindmatch [\"a\"]\n{\n}", "sink s\n    kindmatch [\"a\"]\n\n\n    # c\n\n    priority 1\n{\n}", "a\n/* c */\n\npriority 1", "a\n/* c */\n\nkindmatch []", "let [a, b] := c\nlet     [a, b] := c",
+	"mutex a {\n}\n\n\n/* c */\n\nb", "import \"a\" as b\n\n/* c */\n\nfor a in b {\n}", "sink a\n    priority -1\n    suppresses []\n{\n}", "sink s\n    kindmatch [\"a\"],\n    /* c */\n\n    priority 1\n{\n}", "sink s\n    /* c */\n\n    kindmatch [\"a\"]\n{\n}", "sink s\n    kindmatch [\"a\"]\n\n\n    # c\n\n    priority 1\n{\n}", "a\n/* c */\n\npriority 1", "a\n/* c */\n\nkindmatch []", "/* a */\n\n0 /* b */ % 0", "/**/\n\n0/**/%0", "/* a */\n\nx /* b */ := /* c */ 1", "# a\n\n\nf(1) /* b */ + 2", "let [a, b] := c\nlet     [a, b] := c",
 }
